@@ -482,7 +482,7 @@ theorem deleteA_minv (σ : Schema) : ∀ (n : Nat) (Q : Child → Bytes → Prop
   | zero => intro Q prog s id s' _ h; simp [deleteA] at h
   | succ n ih =>
     intro Q prog s id s' hM h
-    obtain ⟨hc, s3, hF, _, rfl⟩ := deleteA_succ_ok h
+    obtain ⟨hc, s3, hF, _, rfl, _⟩ := deleteA_succ_ok h
     obtain ⟨e, he⟩ := (Map.contains_iff _ _).1 hc
     have hM3 := rounds_minv (fun Q' st x st' a b => ih Q' (mark prog id) st x st' a b) _ Q s s3 hM hF
     have he3 : s3.as.lookup id = some e := rounds_keeps_id _ s s3 he hF
@@ -588,6 +588,25 @@ theorem cinv_empty (σ : Schema) : CInv σ {} := by
   · intro k e he; simp [Map.lookup] at he
   · cases c <;> simp [St.mentees, Map.lookup] at ht
 
+/-- `MInv` depends on the schema only through which child store declares which fk -/
+theorem mentorOf_withProtect (σ : Schema) (v : Bytes) (c : Child) : mentorOf (σ.withProtect v) c = mentorOf σ c := by
+  funext e; cases c <;> rfl
+
+theorem guardOf_withProtect (σ : Schema) (v : Bytes) (c : Child) : guardOf (σ.withProtect v) c = guardOf σ c := by
+  funext e; cases c <;> rfl
+
+theorem MInv.withProtect {σ : Schema} {P : Child → Bytes → Prop} {s : St} (v : Bytes) :
+    MInv (σ.withProtect v) P s ↔ MInv σ P s := by
+  constructor
+  · intro h
+    exact ⟨fun c => by have := h.men c; rw [mentorOf_withProtect] at this; exact this,
+      fun c => by have := h.menT c; rw [mentorOf_withProtect] at this; exact this,
+      fun c => by have := h.guardT c; rw [guardOf_withProtect] at this; exact this, h.menK⟩
+  · intro h
+    exact ⟨fun c => by rw [mentorOf_withProtect]; exact h.men c,
+      fun c => by rw [mentorOf_withProtect]; exact h.menT c,
+      fun c => by rw [guardOf_withProtect]; exact h.guardT c, h.menK⟩
+
 theorem apply_full {σ : Schema} {s s' : St} (op : Op) (hF : FullInv σ s) (h : apply σ s op = .ok s') : FullInv σ s' := by
   refine ⟨apply_inv op hF.1 h, ?_⟩
   cases op with
@@ -599,6 +618,10 @@ theorem apply_full {σ : Schema} {s s' : St} (op : Op) (hF : FullInv σ s) (h : 
   | createC c id e x => exact createC_cinv hF.1 hF.2 h
   | updateC c id e x mo mb md mt mm mg => exact updateC_cinv hF.1 hF.2 h
   | deleteC id => exact deleteA_minv σ _ _ [] s id s' hF.2 h
+  | deleteAV id v =>
+    exact (MInv.withProtect v).1 (deleteA_minv (σ.withProtect v) _ _ [] s id s' ((MInv.withProtect v).2 hF.2) h)
+  | deleteBV id v =>
+    exact (MInv.withProtect v).1 (deleteB_cinv (σ := σ.withProtect v) (hF.1.of_schema rfl) ((MInv.withProtect v).2 hF.2) h)
 
 theorem runTxFrom_full {σ : Schema} {s0 : St} (h0 : FullInv σ s0) :
     ∀ (ops : List Op) (i : Nat) (s : St), FullInv σ s → FullInv σ (runTxFrom σ s0 i s ops).1 := by
